@@ -1,0 +1,130 @@
+//go:build verif
+
+// Machine-checked contracts for package xmp (comment-only; read by /verif/bin/vcgo).
+// The XMP reader runs beneath ParseXmp's recover frame: run-time panics become the returned error (C01 counts only
+// non-error panic values there). What is decided here is TERMINATION (C02): every scan loop either consumes input,
+// widens a look-ahead window that is bounded by the buffer size, or returns.
+package xmp
+
+//@ func newXMPReader
+//@   props C01 C02
+//@   requires r != nil
+//@   modifies streams
+//@   ensures r0.r != nil
+
+//@ func (*xmpReader).Peek
+//@   props C01 C02
+//@   requires br.r != nil
+//@   modifies stream(br.r)
+//@   view buf
+//@   ensures pos(br.r) == old(pos(br.r))
+//@   ensures [C02] n > bsize(br.r) ==> err != nil
+//@   ensures err == nil && n >= 0 ==> pos(br.r) + len(buf) <= lim(br.r)
+//@   ensures arr(buf) == sid(br.r) && off(buf) == pos(br.r) && len(buf) >= 0
+
+//@ func (*xmpReader).Discard
+//@   props C01 C02
+//@   requires br.r != nil
+//@   modifies stream(br.r)
+//@   ensures [C02] n >= 0 ==> 0 <= discarded && discarded <= n && pos(br.r) == old(pos(br.r)) + discarded
+//@   ensures [C02] n < 0 ==> pos(br.r) == old(pos(br.r))
+//@   ensures err == nil ==> discarded == n
+
+// the root-tag search: every iteration that does not return has consumed at least one byte
+//@ func (*xmpReader).readRootTag
+//@   props C01 C02
+//@   requires br.r != nil
+//@   modifies stream(br.r)
+//@   ensures [C02] pos(br.r) >= old(pos(br.r))
+//@   loop 0 invariant br.r != nil && pos(br.r) >= old(pos(br.r))
+//@   loop 0 decreases lim(br.r) - pos(br.r)
+
+// look-ahead loops: the window s grows by a constant and Peek refuses a window larger than the buffer
+//@ func (*xmpReader).readAttrValue
+//@   props C01 C02
+//@   requires br.r != nil
+//@   modifies stream(br.r), br.a, tag.t
+//@   ensures [C02] pos(br.r) >= old(pos(br.r))
+//@   loop 0 invariant br.r != nil && s >= 0 && pos(br.r) == old(pos(br.r))
+//@   loop 0 decreases bsize(br.r) - s
+
+//@ func (*xmpReader).readTagHeader
+//@   props C01 C02
+//@   requires br.r != nil
+//@   modifies stream(br.r), br.a
+//@   ensures [C02] pos(br.r) >= old(pos(br.r))
+//@   ensures [C02] err == nil ==> pos(br.r) > old(pos(br.r))
+//@   loop 0 invariant br.r != nil && s >= 0 && i >= 0 && pos(br.r) == old(pos(br.r))
+//@   loop 0 decreases bsize(br.r) - s
+//@   loop 1 invariant i >= 0
+//@   loop 1 decreases len(buf) - i
+
+//@ func (*xmpReader).readTagValue
+//@   props C01 C02
+//@   requires br.r != nil
+//@   modifies stream(br.r)
+//@   ensures [C02] pos(br.r) >= old(pos(br.r))
+//@   loop 0 invariant br.r != nil && s >= 0 && i >= 0 && j >= 0 && pos(br.r) == old(pos(br.r))
+//@   loop 0 decreases bsize(br.r) - s
+//@   loop 1 invariant i >= 0
+//@   loop 1 decreases len(buf) - i
+//@   loop 2 invariant j >= 0
+//@   loop 2 decreases len(buf) - j
+
+// name scanners: pure functions of the peeked bytes; on success the returned length is inside the buffer
+//@ func parseAttrName
+//@   props C01 C02
+//@   pure
+//@   ensures r2 == nil ==> 3 <= r1 && r1 < len(buf)
+//@   ensures r2 != nil ==> r1 == -1
+
+//@ func parseTagName
+//@   props C01 C02
+//@   pure
+//@   ensures r2 == nil ==> 1 <= r1 && r1 < len(buf)
+//@   ensures r2 != nil ==> r1 == -1
+
+// Value parsing never touches the reader: (*XMP).parser receives a property VALUE (a copy of the peeked bytes' header) and
+// writes fields of the XMP record only. TRUSTED as to its frame (a switch over namespaces that calls the per-namespace
+// parsers; their loops are verified for termination on their own); it has no access to the byte stream.
+//@ func (*XMP).parser
+//@   props C01 C02
+//@   trusted frame: writes only the XMP record it is given; verified callees
+//@   modifies XMP.Aux, XMP.Exif, XMP.Tiff, XMP.Basic, XMP.DC, XMP.CRS, XMP.MM
+
+//@ func (*xmpReader).readAttribute
+//@   props C01 C02
+//@   requires br.r != nil
+//@   modifies stream(br.r), br.a, tag.t
+//@   ensures [C02] pos(br.r) >= old(pos(br.r))
+//@   ensures [C02] err == nil ==> pos(br.r) > old(pos(br.r))
+
+// the tag walk: every iteration starts with a tag header (at least one byte consumed); nested tags recurse after it
+//@ func (*xmpReader).readSeqTags
+//@   props C01 C02
+//@   requires br.r != nil
+//@   modifies stream(br.r), br.a, XMP.Aux, XMP.Exif, XMP.Tiff, XMP.Basic, XMP.DC, XMP.CRS, XMP.MM
+//@   ensures [C02] pos(br.r) >= old(pos(br.r))
+//@   loop 0 invariant br.r != nil && pos(br.r) >= old(pos(br.r))
+//@   loop 0 decreases lim(br.r) - pos(br.r)
+//@   loop 1 invariant br.r != nil && pos(br.r) > athead(0, pos(br.r))
+//@   loop 1 decreases lim(br.r) - pos(br.r)
+
+//@ func (*xmpReader).readTag
+//@   props C01 C02
+//@   requires br.r != nil
+//@   modifies stream(br.r), br.a, XMP.Aux, XMP.Exif, XMP.Tiff, XMP.Basic, XMP.DC, XMP.CRS, XMP.MM
+//@   decreases lim(br.r) - pos(br.r)
+//@   ensures [C02] pos(br.r) >= old(pos(br.r))
+//@   ensures [C02] err == nil ==> pos(br.r) > old(pos(br.r))
+//@   loop 0 invariant br.r != nil && pos(br.r) >= old(pos(br.r))
+//@   loop 0 decreases lim(br.r) - pos(br.r)
+//@   loop 1 invariant br.r != nil && pos(br.r) > athead(0, pos(br.r))
+//@   loop 1 decreases lim(br.r) - pos(br.r)
+
+//@ func ParseXmp
+//@   props C01 C02
+//@   entry
+//@   requires r != nil
+//@   loop 0 invariant xr.r != nil
+//@   loop 0 decreases lim(xr.r) - pos(xr.r)
